@@ -40,7 +40,7 @@ def check(ctx, tier):
     coh = ctx.cached("coherence", lambda: Coherence(tk))
     report(coh, "C04.a", funcs=[f.qual, RA + "_broadcast_rows"])
     from .. import hazards as _hz, scopes as _sc
-    _hz.generic(ctx, tk, "C04.z", _sc.scope(tk, "C04", depth=2))
+    _hz.generic(ctx, tk, "C04.z", _sc.scope(tk, "C04", depth=1))
     return {}
 
 
